@@ -610,6 +610,11 @@ func evalForFd(fm *Frame, op valuesOp, closeOK bool, what string) (int, error) {
 	}
 	var fd int
 	if vals.ScanToGo(value, &fd) == nil {
+		if fd == -1 && closeOK {
+			// -1 is how "-" (close) is reported below; written as a number it
+			// is an invalid fd like any other negative number.
+			return -1, InvalidFD{FD: fd}
+		}
 		return fd, nil
 	} else if value == "-" && closeOK {
 		return -1, nil
